@@ -2268,13 +2268,14 @@ Section NoEoo.
   Qed.
 
   Lemma ne_main c sp acc r sfun :
-    ne (Mark (match r with
-              | Some len => dispatch c rec lf sp acc len sfun
-              | None => let! t := read_tag lf in let! len := read_length c in dispatch c rec lf sp (t :: acc) len sfun
-              end)).
+    ne (match r with
+        | Some len => dispatch c rec lf sp acc len sfun
+        | None => Mark (let! t := read_tag lf in let! len := read_length c in dispatch c rec lf sp (t :: acc) len sfun)
+        end).
   Proof.
-    intros s d s' H. cbn [resume] in H. revert H. generalize (setmark s (pos s)). intros s0 H.
+    intros s d s' H.
     destruct r as [len|]; [exact (ne_dispatch _ _ _ _ _ _ _ _ H)|].
+    cbn [resume] in H. revert H. generalize (setmark s (pos s)). intros s0 H.
     binv H t s1 Ht. binv H len s2 Hl. exact (ne_dispatch _ _ _ _ _ _ _ _ H).
   Qed.
 End NoEoo.
@@ -2290,10 +2291,10 @@ Proof.
   destruct (allow && support_indef c)%bool eqn:Ea.
   - apply andb_prop in Ea. destruct Ea as [-> _]. split; [reflexivity|].
     binv H b s1 Hb. apply readN_inv in Hb.
-    assert (Hm: forall s0, resume (SeekBack 2 (Mark (match r with
+    assert (Hm: forall s0, resume (SeekBack 2 (match r with
               | Some len => dispatch c (dec_call c f) f sp acc len sfun
-              | None => let! t := read_tag f in let! len := read_length c in dispatch c (dec_call c f) f sp (t :: acc) len sfun
-              end))) s0 = inr (Ok DEoo, s') -> False).
+              | None => Mark (let! t := read_tag f in let! len := read_length c in dispatch c (dec_call c f) f sp (t :: acc) len sfun)
+              end)) s0 = inr (Ok DEoo, s') -> False).
     { intros s0 H0. cbn [resume] in H0. exact (ne_main (dec_call c f) f Hrec c sp acc r sfun _ _ _ H0 eq_refl). }
     destruct b as [|x r1]; [exfalso; exact (Hm _ H)|]. destruct x; [|exfalso; exact (Hm _ H)].
     destruct r1 as [|y r2]; [exfalso; exact (Hm _ H)|]. destruct y; [|exfalso; exact (Hm _ H)].
